@@ -94,9 +94,7 @@ def Iter.len : Iter → Len
   | .cycle cur [] => .fin cur.length
   | .cycle _ (_ :: _) => .inf
   | .chain a b => a.len.add b.len
-  | .map1 _ a => a.len
-  | .mapL _ _ a => a.len
-  | .mapR _ a _ => a.len
+  | .mapc _ _ _ a => a.len
   | .map2 _ a b => a.len.min b.len
 
 def Iter.get : Iter → Nat → Option Term
@@ -105,9 +103,7 @@ def Iter.get : Iter → Nat → Option Term
   | .cycle cur all, i =>
     if i < cur.length then cur[i]? else all[(i - cur.length) % all.length]?
   | .chain a b, i => chainAt a.len a.get b.get i
-  | .map1 f a, i => (a.get i).map fun x => .app f [x]
-  | .mapL f c a, i => (a.get i).map fun x => .app f [c, x]
-  | .mapR f a c, i => (a.get i).map fun x => .app f [x, c]
+  | .mapc f pre post a, i => (a.get i).map fun x => .app f (pre ++ x :: post)
   | .map2 f a b, i =>
     match a.get i, b.get i with
     | some x, some y => some (.app f [x, y])
@@ -189,5 +185,67 @@ def Py.at : Py → Nat → Option Term
   | .meth l s, i => (s.at i).map fun x => .app l [x]
   | .append s o, i =>
     chainAt s.len s.at o.at i
+
+end ALV.C01
+
+/-! ## Broadcast functions (`elementwise`): what the property says -/
+
+namespace ALV.C01
+
+inductive OutKind where
+  | value                -- a single value (scalar in, scalar out)
+  | generator            -- a lazy generator
+  | stream               -- a (lazy) Stream
+  | same (k : CKind)     -- a container of the same kind as the argument
+  | keyError
+  deriving DecidableEq, Repr
+
+/-- **the property**: scalar in → scalar out; lazy inputs stay lazy; a Stream gives a Stream;
+    any other container comes back as the same kind of container. -/
+def bcastKind : CKind → OutKind
+  | .scalar | .str => .value
+  | .generator | .range | .enumerate | .zip | .zipLongest | .map | .filter => .generator
+  | .stream | .streamSub => .stream
+  | .list => .same .list
+  | .tuple => .same .tuple
+  | .set => .same .set
+  | .frozenset => .same .frozenset
+  | .deque => .same .deque
+
+def BOut.kind : BOut → OutKind
+  | .value _ => .value
+  | .gen _ => .generator
+  | .stream _ => .stream
+  | .cast k _ _ => .same k
+  | .keyError => .keyError
+
+/-- the constructor of `BArg` fits the kind -/
+def BArg.wf : BArg → Bool
+  | .obj k _ => !k.isIterable || k.isStr
+  | .sized k _ _ => k.isIterable && !k.isStr && !k.isSomeGen && !k.isStream
+  | .lazy k _ => k.isSomeGen || k.isStream
+
+/-- position of the broadcast argument among the positional arguments (decorator default: 0) -/
+def ECall.slot (c : ECall) : Option Nat :=
+  if c.dname == [] && c.dpos.isNone then some 0 else c.dpos
+
+/-- is the broadcast argument one of the positional arguments of this call? -/
+def ECall.positional (c : ECall) : Bool :=
+  match c.slot with
+  | some p => decide (p < c.args.length)
+  | none => false
+
+/-- does the call supply the broadcast argument at all? -/
+def ECall.found (c : ECall) : Bool :=
+  c.positional || c.kwargs.any fun kv => kv.1 == c.dname
+
+def kwReplace (name : Name) (x : Term) : List (Name × Term) → List (Name × Term)
+  | [] => []
+  | (k, v) :: r => if k == name then (k, x) :: r else (k, v) :: kwReplace name x r
+
+/-- the function applied with `x` in the place of the broadcast argument, every other argument unchanged -/
+def ECall.callWith (c : ECall) (x : Term) : Term :=
+  if c.positional then .app c.f (c.args.set (c.slot.getD 0) x ++ kwFlat c.kwargs)
+  else .app c.f (c.args ++ kwFlat (kwReplace c.dname x c.kwargs))
 
 end ALV.C01
